@@ -1001,7 +1001,7 @@ class Spec:
                          "Mhd.C14.info_block_layout", "Mhd.C14.username_block_layout", "Mhd.C14.uname_type_exact",
                          "Mhd.C14.digest_api_first_matching_header", "Mhd.C14.digest_api_no_header",
                          "Mhd.C14.basic_api_first_matching_header", "Mhd.C14.basic_api_no_header", "Mhd.C14.api_single_header",
-                         "Mhd.C14.early_query_not_cached", "Mhd.C14.late_query_after_early", "Mhd.C14.basic_query_spec",
+                         "Mhd.C14.digest_accepts_only_lenient_grammar", "Mhd.C14.early_query_not_cached", "Mhd.C14.late_query_after_early", "Mhd.C14.basic_query_spec",
                          "Mhd.C14.digest_query_spec", "Mhd.C14.next_request_fresh",
                          "Mhd.C14.digest_roundtrip", "Mhd.C14.digest_rendering_invariant", "Mhd.C14.digest_roundtrip_full",
                          "Mhd.C14.algo_quoting_invariant", "Mhd.C14.qop_quoting_invariant", "Mhd.C14.userhash_quoting_invariant",
